@@ -5,6 +5,7 @@ package hx
 // the xkernel driver only, ACL / govern-token / proposal / timer managers).
 
 import (
+	"bytes"
 	"encoding/json"
 	"fmt"
 	"math/big"
@@ -78,6 +79,8 @@ type NodeOpts struct {
 	DecayRatio   float64 // award_decay.ratio
 	PredistN     int     // number of ring addresses funded at genesis
 	MaxBlockSize int     // MB
+	// GenesisFault > 0: the n-th storage write of the FIRST play of the root block fails; the play is then repeated
+	GenesisFault int `json:",omitempty"`
 	NewAccGas    int64   // new_account_resource_amount
 	NoLog        bool    // do not keep a write log (replicas)
 	GasPrice     [4]int64
@@ -154,6 +157,8 @@ type Node struct {
 	Net      *SyncNet       // scripted peer network behind EngCtx.Net (block synchronisation path)
 	Cons     *SyncConsensus // scripted consensus behind Ctx.Consensus
 	Genesis  []byte
+	// GenesisFaultFired: the injected write error of NodeOpts.GenesisFault hit the first play of the root block
+	GenesisFaultFired bool
 	Root     *pb.InternalBlock
 	closed   bool
 }
@@ -195,6 +200,19 @@ func NewNode(opts NodeOpts) (*Node, error) {
 	n.Root = blk
 	if err := n.openState(); err != nil {
 		return nil, err
+	}
+	if opts.GenesisFault > 0 {
+		// the very first play of the root block hits a storage write error (the n-th write from its start) and is
+		// retried on the same State object, as a node whose disk hiccups during initialisation does
+		n.World.FailNthWrite(opts.GenesisFault)
+		perr := n.State.Play(blk.Blockid)
+		WaitAsync()
+		if pending := n.World.Disarm(); !pending {
+			n.GenesisFaultFired = true
+		}
+		if perr == nil && bytes.Equal(n.State.GetLatestBlockid(), blk.Blockid) {
+			return n, nil
+		}
 	}
 	if err := n.State.Play(blk.Blockid); err != nil {
 		return nil, fmt.Errorf("play root: %v", err)
